@@ -1189,7 +1189,9 @@ class HttpPayloadParser:
 
                     self._trailer_lines.append(line)
 
-                    if len(self._trailer_lines) > self._max_trailers:
+                    # (the empty line that ends the section is not a field: a
+                    # message whose header block used up the budget can still end)
+                    if line and len(self._trailer_lines) > self._max_trailers:
                         raise BadHttpMessage("Too many trailers received")
 
                     # \r\n\r\n found, end of stream
